@@ -38,7 +38,7 @@ def ordering_matrix(Rs):
     return np.vstack(columns)
 
 
-def matrix_rep(p=0, q=0, r=0, signature=None):
+def matrix_rep(p=0, q=0, r=0, signature=None, blades=None):
     """
     Create the matrix reps of all the basis blades of an algebra.
     These are selected such that the entries in the first column
@@ -48,6 +48,10 @@ def matrix_rep(p=0, q=0, r=0, signature=None):
     :param p: number of positive dimensions.
     :param q: number of negative dimensions.
     :param r: number of null dimensions.
+    :param blades: (optional) the basis blades in the order of the algebra's basis, each given as the sequence of
+        (zero-based) basis-vector indices in the order in which they are spelled, e.g. :code:`[2, 0]` for a blade
+        spelled :code:`e31` when the first basis vector is :code:`e1`. By default, the blades are ordered by grade
+        and consist of ascending combinations of the basis vectors.
     :return: sequence of matrix reps for the basis-blades.
     """
     d = p + q + r
@@ -81,15 +85,19 @@ def matrix_rep(p=0, q=0, r=0, signature=None):
         Es.append(reduce(np.kron, mats, 1))
     Es = list(Es)
 
-    Rs = Es.copy()
-    Iden = reduce(np.kron, [I for _ in range(d)])
-    Rs.insert(0, Iden)
+    Iden = reduce(np.kron, [I for _ in range(d)], np.eye(1, dtype=int))
+    if blades is not None:
+        # Custom basis: every blade is the ordered product of its basis vectors, in the order of the basis.
+        Rs = [reduce(lambda x, y: x @ y, [Es[i] for i in blade], Iden) for blade in blades]
+    else:
+        Rs = Es.copy()
+        Rs.insert(0, Iden)
 
-    # Extend Rs with the higher order basis-blades.
-    for i in range(2, d+1):
-        Rs_grade_i = [reduce(lambda x, y: x @ y, comb)
-                      for comb in combinations(Es, r=i)]
-        Rs.extend(Rs_grade_i)
+        # Extend Rs with the higher order basis-blades.
+        for i in range(2, d+1):
+            Rs_grade_i = [reduce(lambda x, y: x @ y, comb)
+                          for comb in combinations(Es, r=i)]
+            Rs.extend(Rs_grade_i)
 
     O = ordering_matrix(Rs)
     return [O @ Ri @ O.T for Ri in Rs]
